@@ -53,6 +53,7 @@ class Facet:
     shards = {"quick": 4, "thorough": 16}
     exhaustive = False  # enumerate() covers a finite space completely
     rule = ""
+    tiers = ("quick", "thorough")  # tiers in which the facet runs
 
     def strategy(self, tier):
         return None
@@ -229,6 +230,12 @@ def _run_shard(pid, facet_name, tier, seed, shard, nshards, suppressed, shrink):
     failure = None
     t0 = time.time()
 
+    if hasattr(facet, "external"):
+        # a campaign driven by another engine (atheris): returns the same record as a shard
+        rec = facet.external(tier, seed, shard, nshards, suppressed)
+        rec.update(facet=facet_name, shard=shard, wall=time.time() - t0)
+        return rec
+
     enum = facet.enumerate(tier)
     if enum is not None:
         best = None
@@ -381,7 +388,7 @@ def check_property(pid, tier, seed, only_facets=None, procs=16, max_rounds=4):
                 violations.append((bucket, msg, path))
 
     # 2. generated search, facet by facet, collect-then-continue over buckets
-    facets = [f for f in prop.facets.values() if not only_facets or f.name in only_facets]
+    facets = [f for f in prop.facets.values() if (not only_facets or f.name in only_facets) and tier in f.tiers]
     per_facet = {}
     all_nontrivial = set()
     classes = Counter()
